@@ -1,6 +1,7 @@
 (* Properties/C03.v — Builder edits behave like edits on a plain tree (set-get and frame). *)
 From Coq Require Import List String Bool ZArith Arith.
-From YT Require Import Base.Str Base.KV Model.Doc Model.Dom Model.Builder Proofs.BuilderProofs.
+From YT Require Import Base.Str Base.KV Model.Doc Model.Dom Model.Path Model.Builder Proofs.BuilderProofs
+  Proofs.PathProofs Proofs.FrameProofs.
 Import ListNotations.
 Local Open Scope list_scope.
 
@@ -19,21 +20,49 @@ Theorem C03_lookup_remove_at : forall path kvs,
 Proof. exact lookup_remove_at. Qed.
 Print Assumptions C03_lookup_remove_at.
 
-(* Frame, top-level form: a write (resp. removal) below one top-level key changes no other
-   top-level entry.  (The full positional frame — every position not on the written path is
-   unchanged except lower sibling indices created by padding — is decided by the correspondence
-   on every step of every history; see DESIGN.md C03.) *)
-Theorem C03_add_at_frame_key_partial : forall p v kvs k,
+(* "Nothing outside the written or removed subtree changes."  Positions are step lists (keys and
+   list indexes); two positions diverge when, at their first difference, they take different keys
+   or different indexes.  AddValueAt at one position leaves Lookup of every EXISTING diverging
+   position unchanged (positions that did not exist may appear as null padding: C03_list_set_other).
+   The builder's add_at is first shown equal to a step-wise set on the tree (add_at_steps). *)
+Theorem C03_add_value_at_frame : forall k r k' r' v kvs,
+  forallb step_safe (K k :: r) = true -> forallb step_safe (K k' :: r') = true ->
+  diverge (K k :: r) (K k' :: r') ->
+  lookup (render_steps (K k' :: r')) (Con kvs) <> None ->
+  lookup (render_steps (K k' :: r')) (Con (add_value_at (render_steps (K k :: r)) v kvs)) =
+  lookup (render_steps (K k' :: r')) (Con kvs).
+Proof. exact add_value_at_frame. Qed.
+Print Assumptions C03_add_value_at_frame.
+
+Theorem C03_set_steps_frame : forall sigma tau v n,
+  diverge sigma tau -> get_steps tau n <> None ->
+  get_steps tau (set_steps sigma v n) = get_steps tau n.
+Proof. exact set_steps_frame. Qed.
+Print Assumptions C03_set_steps_frame.
+
+(* RemoveAt("<position>.<key>") likewise leaves every existing diverging position unchanged. *)
+Theorem C03_remove_at_frame : forall p last k' r' kvs,
+  Forall (fun c => key_safe (fst c) = true) p -> key_safe last = true ->
+  forallb step_safe (K k' :: r') = true ->
+  diverge (steps_of p ++ [K last]) (K k' :: r') ->
+  lookup (render_steps (K k' :: r')) (Con kvs) <> None ->
+  lookup (render_steps (K k' :: r')) (Con (remove_at (render_steps (steps_of p ++ [K last])) kvs)) =
+  lookup (render_steps (K k' :: r')) (Con kvs).
+Proof. exact remove_at_frame. Qed.
+Print Assumptions C03_remove_at_frame.
+
+(* top-level forms, for arbitrary (also unsafe) component strings *)
+Theorem C03_add_at_frame_key : forall p v kvs k,
   match p with c :: _ => k <> fst c | [] => True end ->
   kv_get k (add_at p v kvs) = kv_get k kvs.
 Proof. exact add_at_frame_key. Qed.
-Print Assumptions C03_add_at_frame_key_partial.
+Print Assumptions C03_add_at_frame_key.
 
-Theorem C03_remove_at_frame_key_partial : forall pc kvs k,
+Theorem C03_remove_at_frame_key : forall pc kvs k,
   match pc with c :: _ => k <> fst (comp_parse c) /\ k <> c | [] => True end ->
   kv_get k (remove_at_comps pc kvs) = kv_get k kvs.
 Proof. exact remove_at_frame_key. Qed.
-Print Assumptions C03_remove_at_frame_key_partial.
+Print Assumptions C03_remove_at_frame_key.
 
 (* ListBuilder.Set: the list grows to max(len, i+1), slot i holds the value, new lower slots are
    null, every other slot is unchanged. *)
@@ -65,6 +94,11 @@ Theorem C03_bstep_wf : forall d o, wf d = true ->
   end -> wf (bstep d o) = true.
 Proof. exact bstep_wf. Qed.
 Print Assumptions C03_bstep_wf.
+
+Example C03_ex_frame :
+  diverge [K "a"%string; I 1; K "x"%string] [K "a"%string; I 0; K "y"%string] /\
+  lookup "a[0].y" (Con [("a"%string, Lst [Con [("y"%string, Leaf (SInt 7))]])]) <> None.
+Proof. split; [repeat constructor; discriminate|vm_compute; discriminate]. Qed.
 
 (* non-vacuity: the two histories that panicked / lost data on the pinned tree *)
 Example C03_ex1 :
